@@ -143,6 +143,7 @@ typedef struct hx_obs {
     int nsteady; int64_t steady[16]; int64_t steady_last; int steady_n_total; int steady_growth_at;
     uint32_t q_consumed_total, s_consumed_total;
     int final_in_status, final_out_status;
+    int final_susp[2];          /* driver: direction suspended by DATA_OTHER at the end            */
 } hx_obs;
 
 extern hx_obs *hx_cur;               /* observation of the execution in flight */
@@ -195,6 +196,7 @@ enum {
     HX_SITE_RES_HDR_LFCR = 1,
     HX_SITE_RES_COMPLETE_EARLY_DATA_OTHER = 2,
     HX_SITE_DECOMP_RESTART = 3,
+    HX_SITE_RES_LINE_AS_BODY = 4,
     HX_SITE__MAX = 32
 };
 extern const char *const hx_site_names[];
